@@ -53,6 +53,7 @@ def main():
     ap.add_argument("--tier", default="quick")
     ap.add_argument("--runs", default=None)
     ap.add_argument("--keep", action="store_true")
+    ap.add_argument("--replays", action="store_true", help="also check that each replay file reproduces on the mutant and is silent on the clean tree")
     ap.add_argument("--repo", default="/repo")
     ap.add_argument("--out", default=None, help="write the results as JSON (e.g. /verif/sensitivity.json)")
     args = ap.parse_args()
@@ -89,13 +90,26 @@ def main():
             if verdict != "OK":
                 ok_all = False
             print(f"{m['name']:32s} {pid} exit={r.returncode} expect={m['expect']} {verdict} {time.time()-t0:.0f}s {clause[0][:160] if clause else ''}", flush=True)
-            results.append({"mutant": m["name"], "property": pid, "exit": r.returncode, "expect": m["expect"], "verdict": verdict})
-            # replays written for mutants are scratch artefacts
+            rec = {"mutant": m["name"], "property": pid, "exit": r.returncode, "expect": m["expect"], "verdict": verdict}
+            # replays written for mutants are scratch artefacts; before removing them, check that the replay
+            # file reproduces the violation on the mutated tree (same digest) and not on the clean tree
             for ln in r.stdout.splitlines():
                 if ln.startswith("VIOLATION") and "replay=" in ln:
                     p = ln.split("replay=")[1].strip()
+                    if os.path.exists(p) and args.replays:
+                        r1 = run([os.path.join(VERIF, "bin", "simjd"), "replay", p, "--repo", d])
+                        r2 = run([os.path.join(VERIF, "bin", "simjd"), "replay", p, "--repo", args.repo])
+                        dg = [x for x in r1.stdout.splitlines() if x.startswith("replay property=")]
+                        same_digest = bool(dg) and dg[0].split(" digest=")[1].split()[0] == dg[0].split("recorded_digest=")[1].split()[0]
+                        rec["replay_reproduces_on_mutant"] = r1.returncode == 1
+                        rec["replay_digest_identical"] = same_digest
+                        rec["replay_silent_on_clean_tree"] = r2.returncode == 0
+                        if not (r1.returncode == 1 and same_digest and r2.returncode == 0):
+                            ok_all = False
+                            print(f"   REPLAY-PROBLEM {m['name']} {pid}: on mutant exit={r1.returncode} same_digest={same_digest}; on clean exit={r2.returncode}")
                     if os.path.exists(p) and not args.keep:
                         os.remove(p)
+            results.append(rec)
         if not args.keep:
             shutil.rmtree(d, ignore_errors=True)
     if not args.keep:
